@@ -102,7 +102,14 @@ def gen_times(rng, kind, n):
     return out
 
 
-def gen_spec(rng, scale_kind=None, n=None, direction=None, c08=False, text_classes=None, dense=None):
+def gen_spec(rng, scale_kind=None, n=None, direction=None, c08=False, text_classes=None, dense=None, identity=None):
+    if identity is None:
+        identity = rng.random() < 0.05
+    identity = identity and scale_kind in (None, "linear")
+    if identity:
+        scale_kind = "linear"
+        if rng.random() < 0.6:
+            n = rng.choice([2, 3, 4, 5, 6])
     scale_kind = scale_kind or rng.choice(["linear", "time", "time", "default"])
     if n is None:
         n = rng.choice([1, 2, 3, 3, 5, 8, 12, 20, 40])
@@ -120,6 +127,8 @@ def gen_spec(rng, scale_kind=None, n=None, direction=None, c08=False, text_class
     widths = rng.sample(range(8, 8 + 3 * n + 40), n)  # distinct widths: every box identifies its datum
     if rng.random() < 0.2:
         widths = [w + 0.5 for w in widths]
+    if rng.random() < 0.05:
+        widths[rng.randrange(n)] = rng.choice([0, 0.0, 1])  # still distinct from every other width
     data = []
     for i in range(n):
         d = {"time": times[i], "width": widths[i], "uid": i}
@@ -183,6 +192,11 @@ def gen_spec(rng, scale_kind=None, n=None, direction=None, c08=False, text_class
         if scale_kind == "linear":
             pad = (hi - lo) * rng.choice([0, 0.1, 1]) + rng.choice([0, 1])
             opts["domain"] = [lo - pad, hi + pad]
+            # an end of exactly 0 is an end like any other
+            if lo > 0 and rng.random() < 0.5:
+                opts["domain"][0] = 0.0
+            elif hi < 0 and rng.random() < 0.5:
+                opts["domain"][1] = 0.0
         else:
             pad = (hi - lo) * rng.choice([0, 0.1, 1]) + dt.timedelta(seconds=rng.choice([0, 1, 3600]))
             opts["domain"] = [lo - pad, hi + pad]
@@ -192,6 +206,24 @@ def gen_spec(rng, scale_kind=None, n=None, direction=None, c08=False, text_class
                 opts["domain"][1] += dt.timedelta(milliseconds=1)
         if opts["domain"][0] == opts["domain"][1]:
             del opts["domain"]
+    if identity:
+        # identity axis: integer times on the domain [0, axis length], so every ideal position is an exact integer; with a low
+        # density the labels are split over layers although many layouts (the sparse ones) displace nothing
+        if n <= 6:
+            ts = rng.sample(range(0, axis_len + 1, rng.choice([50, 60, 25])), n)
+            base = rng.choice([8, 12, 20])
+            for d in data:
+                d["width"] = base + 3 * d["uid"]  # narrow, still distinct
+        else:
+            ts = [rng.randrange(axis_len + 1) for _ in range(n)]
+        for d, t in zip(data, ts):
+            d["time"] = float(t)
+        opts["domain"] = [0.0, float(axis_len)]
+        lab = opts.setdefault("labella", {})
+        lab["maxPos"] = axis_len
+        lab.pop("algorithm", None)
+        lab.pop("minPos", None)
+        lab["density"] = rng.choice([0.05, 0.1, 0.2, 0.3])
     if rng.random() < 0.2:
         lat = {}
         for k, vals in (("fontsize", ["10pt", "12pt"]), ("axisThickness", ["thin", "thick"]), ("linkThickness", ["thin", "ultra thick"]),
